@@ -82,6 +82,18 @@ def product():
                 out.append((["bin", op, x, y], dict(vx, **vy), op))
                 tx, tvx = operand_forms(a, "x", False)
                 out.append((["stmt", [["bin", op + "=", ["ref", "x"], y], ["ref", "x"]]], dict(tvx, **vy), op + "="))
+    # ordering operators demand numbers on both sides, whatever the two operands are (equal, same variable, both wrongly typed)
+    cmp_vals = [v for i, v in enumerate(NUMS) if i % 4 == 0] + OTHERS + [("s", "a"), ("b", False), ("l", (("n", 1), ("n", 2)))]
+    for op in ["<", "<=", ">", ">="]:
+        for a in cmp_vals:
+            for b in cmp_vals:
+                k += 1
+                lit = k % 2 == 0
+                x, vx = operand_forms(a, "x", lit)
+                y, vy = operand_forms(b, "y", lit)
+                out.append((["bin", op, x, y], dict(vx, **vy), op))
+            x, vx = operand_forms(a, "x", False)
+            out.append((["bin", op, x, x], vx, op + " same"))
     for op in ["++", "--"]:
         for a in vals:
             for lit in (True, False):
